@@ -384,6 +384,78 @@ pub fn object_bodies(b: &[u8]) -> Vec<(usize, usize, u32)> {
     out
 }
 
+/// (start, length, containing object number) of every indirect reference `N G R` that stands in an object dictionary or
+/// array (stream data is skipped: only what lies between `N G obj` and `stream` / `endobj` is scanned)
+pub fn ref_sites(b: &[u8]) -> Vec<(usize, usize, u32)> {
+    let mut out = Vec::new();
+    let mut i = 0;
+    while i + 5 < b.len() {
+        if b[i..].starts_with(b" obj\n") || b[i..].starts_with(b" obj ") || b[i..].starts_with(b" obj<") {
+            let mut j = i;
+            while j > 0 && b[j - 1].is_ascii_digit() { j -= 1; }
+            let mut k = j.saturating_sub(1);
+            while k > 0 && b[k - 1].is_ascii_digit() { k -= 1; }
+            let num: u32 = std::str::from_utf8(&b[k..j.saturating_sub(1)]).ok().and_then(|s| s.parse().ok()).unwrap_or(0);
+            let s0 = i + 4;
+            let e = (s0..b.len()).find(|x| b[*x..].starts_with(b"endobj") || b[*x..].starts_with(b"stream")).unwrap_or(b.len());
+            // tokens `d+ d+ R` inside [s0, e)
+            let mut p = s0;
+            while p < e {
+                if b[p].is_ascii_digit() && (p == s0 || !b[p - 1].is_ascii_alphanumeric() && b[p - 1] != b'.' && b[p - 1] != b'-' && b[p - 1] != b'#') {
+                    let mut q = p;
+                    while q < e && b[q].is_ascii_digit() { q += 1; }
+                    if q < e && b[q] == b' ' {
+                        let mut r2 = q + 1;
+                        while r2 < e && b[r2].is_ascii_digit() { r2 += 1; }
+                        if r2 > q + 1 && r2 + 1 < b.len() && b[r2] == b' ' && b[r2 + 1] == b'R' && (r2 + 2 >= b.len() || !b[r2 + 2].is_ascii_alphanumeric()) {
+                            if num > 0 {
+                                out.push((p, r2 + 2 - p, num));
+                            }
+                            p = r2 + 2;
+                            continue;
+                        }
+                    }
+                    p = q.max(p + 1);
+                    continue;
+                }
+                p += 1;
+            }
+            i = e;
+        }
+        i += 1;
+    }
+    out
+}
+
+/// The object number a reference is retargeted to: the object holding the reference, or the first object of a kind
+fn ref_target(b: &[u8], to: &str, holder: u32) -> Option<u32> {
+    if to == "self" {
+        return Some(holder);
+    }
+    let pat: &[u8] = match to {
+        "catalog" => b"/Type /Catalog",
+        "pages" => b"/Type /Pages",
+        "page" => b"/Type /Page\n",
+        "font" => b"/Type /Font",
+        "stream" => b"stream\n",
+        _ => return None,
+    };
+    let at = (0..b.len().saturating_sub(pat.len())).find(|i| b[*i..].starts_with(pat))?;
+    // the object this occurrence lies in: the last `N G obj` before it
+    let mut i = at;
+    while i > 4 {
+        if b[i..].starts_with(b" obj") {
+            let mut j = i;
+            while j > 0 && b[j - 1].is_ascii_digit() { j -= 1; }
+            let mut k = j.saturating_sub(1);
+            while k > 0 && b[k - 1].is_ascii_digit() { k -= 1; }
+            return std::str::from_utf8(&b[k..j.saturating_sub(1)]).ok().and_then(|s| s.parse().ok());
+        }
+        i -= 1;
+    }
+    None
+}
+
 fn bases_cmd(a: &Args) {
     let mut out = Out::file(a.req("out"));
     for (name, b) in bases() {
@@ -393,7 +465,7 @@ fn bases_cmd(a: &Args) {
             *classes.entry(c.clone()).or_insert(0u32) += 1;
         }
         let (tails, bodies) = (stream_ends(&b), object_bodies(&b));
-        out.line(&json!({"name": name, "len": b.len(), "nslots": sl.len(), "classes": classes, "ntails": tails.len(), "nbodies": bodies.len(),
+        out.line(&json!({"name": name, "len": b.len(), "nslots": sl.len(), "classes": classes, "ntails": tails.len(), "nbodies": bodies.len(), "nrefs": ref_sites(&b).len(),
                          "tails": tails, "bodies": bodies.iter().map(|(s, e, n)| json!([s, e, n])).collect::<Vec<_>>(),
                          "slots": sl.iter().map(|(o, l, c)| json!({"at": o, "len": l, "class": c})).collect::<Vec<_>>(), "bytes": b}));
     }
@@ -464,6 +536,17 @@ fn apply(base: &[u8], sl: &[(usize, usize, String)], faults: &[Value], seed: u64
                     lit => format!("\n{lit}\n"),
                 };
                 edits.push((s0, e0 - s0, v.into_bytes()));
+            }
+            "ref" => {
+                // an indirect reference retargeted (same width: padded with blanks; a longer number leaves the base as it is)
+                let sites = ref_sites(base);
+                let (at, len, holder) = *sites.get(f["site"].as_u64()? as usize % sites.len().max(1))?;
+                if let Some(t) = ref_target(base, f["to"].as_str()?, holder) {
+                    let rep = format!("{t} 0 R");
+                    if rep.len() <= len {
+                        edits.push((at, len, format!("{rep:<len$}").into_bytes()));
+                    }
+                }
             }
             "bomb" => return Some(bomb(f["name"].as_str()?)),
             "run" => return Some(runfile(f["place"].as_str()?, f["filler"].as_str()?, f["n"].as_u64()? as usize)),
@@ -582,6 +665,95 @@ fn bomb(name: &str) -> Vec<u8> {
             ];
             crate::synth::build(&json!({"version": "1.7", "revisions": [{"objects": objects, "xref": "table", "trailer": [["Root", {"ref": [1, 0]}]]}]})).bytes
         }
+        // ---- small files whose STRUCTURE asks for unbounded work (each found by reading the code, then confirmed) ----
+        // a composite font that names itself as its descendant; a ring of two
+        "font_ring" | "font_ring2" => {
+            let second = name == "font_ring2";
+            let mut objects = vec![
+                json!({"n": 1, "g": 0, "value": raw("<</Type/Catalog/Pages 2 0 R>>".into())}),
+                json!({"n": 2, "g": 0, "value": raw("<</Type/Pages/Kids[3 0 R]/Count 1>>".into())}),
+                json!({"n": 3, "g": 0, "value": page(4)}),
+                json!({"n": 4, "g": 0, "dict": {"d": []}, "data": b"BT /F1 12 Tf (A) Tj ET".to_vec(), "filter": null}),
+                json!({"n": 5, "g": 0, "value": raw(format!("<</Type/Font/Subtype/Type0/BaseFont/X/Encoding/Identity-H/DescendantFonts[{} 0 R]>>", if second { 6 } else { 5 }))}),
+            ];
+            if second {
+                objects.push(json!({"n": 6, "g": 0, "value": raw("<</Type/Font/Subtype/Type0/BaseFont/Y/Encoding/Identity-H/DescendantFonts[5 0 R]>>".into())}));
+            }
+            crate::synth::build(&json!({"version": "1.7", "revisions": [{"objects": objects, "xref": "table", "trailer": [["Root", {"ref": [1, 0]}]]}]})).bytes
+        }
+        // a page-tree node that lists itself as its kid
+        "pages_ring" => {
+            let objects = vec![
+                json!({"n": 1, "g": 0, "value": raw("<</Type/Catalog/Pages 2 0 R>>".into())}),
+                json!({"n": 2, "g": 0, "value": raw("<</Type/Pages/Kids[2 0 R]/Count 1>>".into())}),
+            ];
+            crate::synth::build(&json!({"version": "1.7", "revisions": [{"objects": objects, "xref": "table", "trailer": [["Root", {"ref": [1, 0]}]]}]})).bytes
+        }
+        // a marked-content property list of 200 000 closing brackets; of 100 000 nested arrays
+        "bdc_brackets" => { let mut c = b"/T <</K ".to_vec(); c.extend(b"]".repeat(200_000)); c.extend_from_slice(b">> BDC EMC"); doc(c, true, "3 0 R".into(), 1) }
+        "bdc_nested" => { let mut c = b"/T <</K ".to_vec(); c.extend(b"[".repeat(100_000)); c.extend(b"]".repeat(100_000)); c.extend_from_slice(b">> BDC EMC"); doc(c, true, "3 0 R".into(), 1) }
+        // a form XObject whose resources name itself and whose content paints it ten times
+        "form_ring" => {
+            let objects = vec![
+                json!({"n": 1, "g": 0, "value": raw("<</Type/Catalog/Pages 2 0 R>>".into())}),
+                json!({"n": 2, "g": 0, "value": raw("<</Type/Pages/Kids[3 0 R]/Count 1>>".into())}),
+                json!({"n": 3, "g": 0, "value": raw("<</Type/Page/Parent 2 0 R/MediaBox[0 0 100 100]/Contents 4 0 R/Resources<</XObject<</F 7 0 R>>>>>>".into())}),
+                json!({"n": 4, "g": 0, "dict": {"d": []}, "data": b"/F Do".to_vec(), "filter": null}),
+                json!({"n": 7, "g": 0, "dict": {"d": [["Type", {"n": "XObject"}], ["Subtype", {"n": "Form"}], ["BBox", [0, 0, 10, 10]],
+                       ["Resources", {"d": [["XObject", {"d": [["F", {"ref": [7, 0]}]]}]]}]]}, "data": b"/F Do ".repeat(10), "filter": null}),
+            ];
+            crate::synth::build(&json!({"version": "1.7", "revisions": [{"objects": objects, "xref": "table", "trailer": [["Root", {"ref": [1, 0]}]]}]})).bytes
+        }
+        // a ToUnicode stream of 400 000 usecmap operators; a ToUnicode entry of 100 KB shown a million times;
+        // a /Contents array that names one 10 MB stream 100 000 times
+        "usecmap_run" | "tounicode_expansion" | "contents_repeat" => {
+            let cmap: Vec<u8> = if name == "usecmap_run" { b"usecmap ".repeat(400_000) } else {
+                let mut c = b"/CIDInit /ProcSet findresource begin 12 dict begin begincmap 1 begincodespacerange <00> <FF> endcodespacerange 1 beginbfchar <41> <".to_vec();
+                c.extend(b"0041".repeat(25_000));
+                c.extend_from_slice(b"> endbfchar endcmap end end");
+                c
+            };
+            let content: Vec<u8> = if name == "tounicode_expansion" { let mut c = b"BT /F1 12 Tf (".to_vec(); c.extend(b"A".repeat(1_000_000)); c.extend_from_slice(b") Tj ET"); c }
+                                   else if name == "contents_repeat" { vec![b' '; 10_000_000] } else { b"BT /F1 12 Tf (A) Tj ET".to_vec() };
+            let contents = if name == "contents_repeat" { format!("[{}]", "4 0 R ".repeat(100_000)) } else { "4 0 R".to_string() };
+            let objects = vec![
+                json!({"n": 1, "g": 0, "value": raw("<</Type/Catalog/Pages 2 0 R>>".into())}),
+                json!({"n": 2, "g": 0, "value": raw("<</Type/Pages/Kids[3 0 R]/Count 1>>".into())}),
+                json!({"n": 3, "g": 0, "value": raw(format!("<</Type/Page/Parent 2 0 R/MediaBox[0 0 100 100]/Contents {contents}/Resources<</Font<</F1 5 0 R>>>>>>"))}),
+                json!({"n": 4, "g": 0, "dict": {"d": []}, "data": content, "filter": "Flate"}),
+                json!({"n": 5, "g": 0, "value": raw("<</Type/Font/Subtype/Type1/BaseFont/Helvetica/ToUnicode 6 0 R>>".into())}),
+                json!({"n": 6, "g": 0, "dict": {"d": []}, "data": cmap, "filter": "Flate"}),
+            ];
+            crate::synth::build(&json!({"version": "1.7", "revisions": [{"objects": objects, "xref": "table", "trailer": [["Root", {"ref": [1, 0]}]]}]})).bytes
+        }
+        // a stream dictionary that does not parse and declares /Length 2^62 (the reconstruction path reads /Length from the text)
+        "length_recon" => {
+            let mut b = b"%PDF-1.5\n".to_vec();
+            let mut offs = Vec::new();
+            for (k, body) in ["<< /Type /Catalog /Pages 2 0 R >>", "<< /Type /Pages /Kids [3 0 R] /Count 1 >>",
+                              "<< /Type /Page /Parent 2 0 R /MediaBox [0 0 100 100] /Contents 4 0 R >>",
+                              "<< /Length 4611686018427387904 /X >>\nstream\nx\nendstream"].iter().enumerate() {
+                offs.push(b.len());
+                b.extend_from_slice(format!("{} 0 obj\n{}\nendobj\n", k + 1, body).as_bytes());
+            }
+            let x = b.len();
+            b.extend_from_slice(b"xref\n0 5\n0000000000 65535 f \n");
+            for o in offs { b.extend_from_slice(format!("{:010} 00000 n \n", o).as_bytes()); }
+            b.extend_from_slice(format!("trailer\n<< /Size 5 /Root 1 0 R >>\nstartxref\n{x}\n%%EOF\n").as_bytes());
+            b
+        }
+        // CCITT images whose declared geometry is far beyond their (empty) data
+        "ccitt_columns" | "ccitt_rows" => {
+            let parms = if name == "ccitt_columns" { "/K 0 /Columns 4294967295" } else { "/K -1 /Columns 80000 /Rows 400000" };
+            let objects = vec![
+                json!({"n": 1, "g": 0, "value": raw("<</Type/Catalog/Pages 2 0 R>>".into())}),
+                json!({"n": 2, "g": 0, "value": raw("<</Type/Pages/Kids[3 0 R]/Count 1>>".into())}),
+                json!({"n": 3, "g": 0, "value": raw("<</Type/Page/Parent 2 0 R/MediaBox[0 0 100 100]/Contents 4 0 R/Resources<</XObject<</I 5 0 R>>>>>>".into())}),
+                json!({"n": 4, "g": 0, "dict": {"d": []}, "data": b"/I Do".to_vec(), "filter": null}),
+                json!({"n": 5, "g": 0, "value": raw(format!("<</Type/XObject/Subtype/Image/Width 8/Height 8/ColorSpace/DeviceGray/BitsPerComponent 1/Filter/CCITTFaxDecode/DecodeParms<<{parms}>>/Length 0>>\nstream\n\nendstream"))}),
+            ];
+            crate::synth::build(&json!({"version": "1.7", "revisions": [{"objects": objects, "xref": "table", "trailer": [["Root", {"ref": [1, 0]}]]}]})).bytes
+        }
         _ => b"%PDF-1.7\n".to_vec(),
     }
 }
@@ -682,7 +854,8 @@ fn navigate(bytes: Vec<u8>, opts: ParseOptions, numbers: &[u32]) -> &'static str
     let _ = reader.catalog().map(|_| ());
     let doc: PdfDocument<Cursor<Vec<u8>>> = reader.into_document();
     let n = doc.page_count().unwrap_or(0);
-    for i in 0..n.min(8) {
+    // page 0 is asked for even when the count says there is none (a caller need not ask for the count first)
+    for i in 0..n.min(8).max(1) {
         if let Ok(pg) = doc.get_page(i) {
             let _ = doc.get_page_resources(&pg).map(|_| ());
             let _ = doc.get_page_content_streams(&pg);
